@@ -1843,7 +1843,11 @@ class Interp:
                     return self.call(self.module_get(obj, "__getattr__"), [name], {})
                 self.raise_builtin("AttributeError", name)
         if isinstance(obj, Extern):
-            return Extern(f"{obj.name}.{name}")
+            full = f"{obj.name}.{name}"
+            ev = getattr(self.reg, "extern_values", None)
+            if ev and full in ev:
+                return ev[full](self)  # an assumed VALUE of the outside world (e.g. hypothesis.settings.default), stated in the contract module
+            return Extern(full)
         if isinstance(obj, Opaque):
             return self.opaque_attr(obj, name)
         if isinstance(obj, (VFunc, SpecCallable)):
